@@ -1,5 +1,5 @@
 (* C08 — property theorems only. *)
-From Coq Require Import List.
+From Coq Require Import List NArith.
 Import ListNotations.
 From IV Require Import C08.Defs C08.Proofs.
 
@@ -18,3 +18,14 @@ Print Assumptions c08_program_conforming_partial.
 Theorem c08_spec_fuel_monotone : forall defs fuel ts out, expand defs fuel ts = (out, true) -> forall k, expand defs (fuel + k) ts = (out, true).
 Proof. exact expand_mono. Qed.
 Print Assumptions c08_spec_fuel_monotone.
+
+(* # : for every argument made of well-formed preprocessing tokens the stringification state machine yields the literal that C11 6.10.3.2 prescribes *)
+Theorem c08_stringify_conforming : forall ts, forallb stok_ok ts = true -> stringify true (flat_map stok_src ts) = stringify_spec ts.
+Proof. exact stringify_conforming. Qed.
+Print Assumptions c08_stringify_conforming.
+
+Theorem c08_stringify_pinned_refuted :
+  let ts := [SLit true [Plain 105; Plain 116; Plain 39; Plain 115]; SOther [32]; SLit false [Esc 92]]%N in
+  forallb stok_ok ts = true /\ stringify false (flat_map stok_src ts) <> stringify_spec ts.
+Proof. exact stringify_pinned_refuted. Qed.
+Print Assumptions c08_stringify_pinned_refuted.
